@@ -37,3 +37,28 @@ func deepCopyJSON(v interface{}) interface{} {
 	}
 	return v
 }
+
+// jsonSize counts the values (objects, list entries, leaves) of a decoded JSON-like value.
+func jsonSize(v interface{}) int {
+	switch x := v.(type) {
+	case map[string]interface{}:
+		n := 1
+		for _, c := range x {
+			n += jsonSize(c)
+		}
+		return n
+	case []interface{}:
+		n := 1
+		for _, c := range x {
+			n += jsonSize(c)
+		}
+		return n
+	case []map[string]interface{}:
+		n := 1
+		for _, c := range x {
+			n += jsonSize(c)
+		}
+		return n
+	}
+	return 1
+}
